@@ -385,6 +385,9 @@ func (s *presetSource) world(i int) *check.World {
 	w := gen.World(scen.Mix(s.seed, hashProp(s.prop)), i, p)
 	if s.prop == "C12" {
 		w.Differential = "fresh-config"
+		if i%3 == 2 {
+			w.Differential = "warm-up"
+		}
 	}
 	if s.prop == "C10" && i%2 == 0 {
 		w.Differential = "record-order"
